@@ -172,6 +172,47 @@ def run(tier):
         res.instance("C20.R1", "%s: %d accesses to %s under %s" % (fname, ent["n"], key, lock),
                      not ent["unlocked"], finding=f)
 
+    # ---------------- R1b: the trust-anchor list of a key set is shared by all sessions using it and has no
+    # mutex: it must be read-only after loading.  Decided for stores made directly through the parameters that
+    # receive it (writes through aliases of those parameters are not decided).
+    res.rule("C20.R1b", "the shared CA list (keys->CAcerts) is not written through the parameters that receive it")
+    SHARED_RO_PARAMS = {("psX509AuthenticateCert", 2): "issuerCert: a trust anchor out of keys->CAcerts",
+                        ("matrixValidateCertsExt", 2): "issuerCerts: keys->CAcerts",
+                        ("matrixValidateCerts", 2): "issuerCerts: keys->CAcerts"}
+    nro = 0
+    from sa.ir import ASSIGN_OPS, lvalue_root
+    for (fname, idx), why in sorted(SHARED_RO_PARAMS.items()):
+        fn = prog.fn(fname)
+        if idx >= len(fn.params) or "psCert" not in fn.params[idx].get("t", ""):
+            raise AnalysisBroken("%s: parameter %d is no longer the issuer certificate list" % (fname, idx))
+        pid = fn.params[idx]["id"]
+        writes = []
+        for b, ln, n in fn.nodes():
+            tgt = None
+            if n.get("k") == "bin" and n["op"] in ASSIGN_OPS:
+                tgt = n["l"]
+            elif n.get("k") == "un" and n["op"] in ("++", "--", "post++", "post--"):
+                tgt = n["e"]
+            if tgt is None:
+                continue
+            t0 = strip(tgt)
+            x = t0
+            while x is not None and x.get("k") in ("mem", "idx"):
+                x = strip(x["b"])
+            if t0 is not None and t0.get("k") == "mem" and x is not None and x.get("k") == "var" and x.get("id") == pid:
+                writes.append((ln, t0["f"]))
+        nro += 1
+        if not writes:
+            res.instance("C20.R1b", "%s never stores through %s" % (fname, why), True)
+        for ln, fld in writes:
+            f = Finding(PROP, "C20.R1b", fname, "write to shared CA certificate field %s through parameter %s" % (
+                fld, fn.params[idx]["n"]),
+                "%s stores to %s->%s; the certificate belongs to the CA list shared by every session that uses the key "
+                "set and no mutex protects it" % (fname, fn.params[idx]["n"], fld), file=fn.relfile, line=ln)
+            res.instance("C20.R1b", "%s writes %s->%s at line %s" % (fname, fn.params[idx]["n"], fld, ln), False, finding=f)
+    if nro < 3:
+        raise AnalysisBroken("issuer-certificate parameters not found")
+
     # ---------------- R2
     res.rule("C20.R2", "locks acquired by a function are released on every exit; no held lock is re-acquired")
     nlock = 0
